@@ -468,6 +468,10 @@ SPECIAL_STRINGS = [
     "=1+1", "=SUM(A1:A2)", "=", "1.0", "12.0", "x.0", ".0", "-3.0", "1e+16", "TRUE", "FALSE", "0", "1", "007",
     "2020-01-01 00:00:00", "12:34:56", " ", "  a  ", "a\nb", "\tx", "ä€中\U0001F600", "'quoted", "<&>\"'",
     "_x0041_", "#N/A", "1,5", "",
+    # texts spreadsheet libraries like to interpret: links, mail addresses, formulas in disguise, dates, percentages
+    "http://example.com/a?b=c", "https://example.com", "ftp://example.com/x", "mailto:bob@example.com", "mailto:",
+    "bob@example.com", "internal:Sheet1!A1", "external:other.xlsx", "+1", "-1", "@SUM(1)", "1/2", "50%", "1E5",
+    "01.02.2020", "{=A1}", "  ", "\u200b",
 ]
 ALPHABET = "ab Z09.=-+<>&\"'äß€中\t\n"
 _BOUNDARY_WHOLES = sorted(set(
